@@ -151,8 +151,21 @@ func eq(a, b T) T {
 
 func sel(a, i T) T      { return "(select " + a + " " + i + ")" }
 func sto(a, i, v T) T   { return "(store " + a + " " + i + " " + v + ")" }
-func add(a, b T) T      { return "(+ " + a + " " + b + ")" }
-func sub(a, b T) T      { return "(- " + a + " " + b + ")" }
+func add(a, b T) T {
+	if a == "0" {
+		return b
+	}
+	if b == "0" {
+		return a
+	}
+	return "(+ " + a + " " + b + ")"
+}
+func sub(a, b T) T {
+	if b == "0" {
+		return a
+	}
+	return "(- " + a + " " + b + ")"
+}
 func lt(a, b T) T       { return "(< " + a + " " + b + ")" }
 func le(a, b T) T       { return "(<= " + a + " " + b + ")" }
 func inRange(x, lo, hi T) T { return "(and (<= " + lo + " " + x + ") (<= " + x + " " + hi + "))" }
@@ -261,6 +274,7 @@ var solverCmds = map[string][]string{
 	"z3new": {"z3-new", "-smt2"},
 	"cvc5":  {"cvc5", "--lang=smt2", "--produce-models"},
 	"cvc5e": {"cvc5", "--lang=smt2", "--produce-models", "--full-saturate-quant"},
+	"z3new7": {"z3-new", "-smt2", "smt.random_seed=7", "sat.random_seed=7"},
 }
 
 var solverOrder = []string{"z3new", "z3", "cvc5", "cvc5e"}
@@ -279,7 +293,7 @@ func runOne(ctx context.Context, name, file string, timeout time.Duration) (stri
 	c := solverCmds[name]
 	args := append([]string{}, c[1:]...)
 	switch name {
-	case "z3", "z3new":
+	case "z3", "z3new", "z3new7":
 		args = append(args, fmt.Sprintf("-T:%d", int(timeout.Seconds())+1))
 	case "cvc5", "cvc5e":
 		args = append(args, fmt.Sprintf("--tlimit=%d", timeout.Milliseconds()))
@@ -312,9 +326,11 @@ func runOne(ctx context.Context, name, file string, timeout time.Duration) (stri
 	return "error", s, ms
 }
 
-// solve races the configured solvers on the query. A definite answer (sat or unsat) from
-// any solver ends the race in quick mode; in thorough mode all solvers run to completion
-// and disagreement is reported as "disagree".
+// solve decides one query. Two encodings are tried side by side: the exact query and its
+// nonlinear abstraction (unsat of the abstraction implies unsat of the query; any other answer of
+// the abstraction is ignored). Stage A: z3 5.1 on both, short limit. Stage B: a portfolio
+// (second z3 seed, cvc5 with enumerative instantiation, z3 4.8, cvc5) until the timeout. In
+// thorough mode (all) every solver runs on the exact query and disagreement is reported.
 func solve(query string, name string, timeout time.Duration, all bool, tmpdir string, noAbstract bool) SolverResult {
 	safe := strings.Map(func(r rune) rune {
 		if r == '/' || r == ' ' || r == '*' || r == '(' || r == ')' {
@@ -329,116 +345,146 @@ func solve(query string, name string, timeout time.Duration, all bool, tmpdir st
 	if err := os.WriteFile(file, []byte(query), 0o644); err != nil {
 		return SolverResult{Answer: "error", Output: err.Error()}
 	}
+	afile := ""
 	if !noAbstract {
 		if aq := abstractQuery(query); aq != "" {
-			afile := filepath.Join(tmpdir, safe+".abs.smt2")
-			if os.WriteFile(afile, []byte(aq), 0o644) == nil {
-				a, o, ms := raceTwo(afile, 3*time.Second)
-				if a == "unsat" {
-					statMu.Lock()
-					if solverStats["abstract"] == nil {
-						solverStats["abstract"] = &solverStat{}
-					}
-					solverStats["abstract"].Wins++
-					solverStats["abstract"].Time += float64(ms) / 1000
-					statMu.Unlock()
-					return SolverResult{Answer: "unsat", Solver: "nl-abstract", Ms: ms, Output: o, All: map[string]string{"nl-abstract": a}}
-				}
+			afile = filepath.Join(tmpdir, safe+".abs.smt2")
+			if os.WriteFile(afile, []byte(aq), 0o644) != nil {
+				afile = ""
 			}
 		}
 	}
-	if !all {
-		// stage 1: the fastest solver alone with a short limit; most obligations end here
-		st := 3 * time.Second
-		if timeout < st {
-			st = timeout
-		}
-		a, o, ms := raceTwo(file, st)
-		statMu.Lock()
-		if solverStats["z3new"] == nil {
-			solverStats["z3new"] = &solverStat{}
-		}
-		solverStats["z3new"].Time += float64(ms) / 1000
-		if a == "sat" || a == "unsat" {
-			solverStats["z3new"].Wins++
-		}
-		statMu.Unlock()
-		if a == "sat" || a == "unsat" {
-			return SolverResult{Answer: a, Solver: "z3new", Ms: ms, Output: o, All: map[string]string{"z3new": a}}
-		}
+	type job struct {
+		solver string
+		file   string
+		abs    bool
 	}
-	ctx, cancel := context.WithCancel(context.Background())
-	defer cancel()
 	type res struct {
-		name, ans, out string
-		ms             int64
-	}
-	ch := make(chan res, len(solverOrder))
-	for _, s := range solverOrder {
-		go func(s string) {
-			a, o, ms := runOne(ctx, s, file, timeout)
-			ch <- res{s, a, o, ms}
-		}(s)
+		j   job
+		ans string
+		out string
+		ms  int64
 	}
 	final := SolverResult{Answer: "timeout", All: map[string]string{}}
-	got := 0
-	for got < len(solverOrder) {
-		r := <-ch
-		got++
-		final.All[r.name] = r.ans
+	record := func(r res) {
+		key := r.j.solver
+		if r.j.abs {
+			key = "nl-abstract"
+		}
 		statMu.Lock()
-		st := solverStats[r.name]
+		st := solverStats[key]
 		if st == nil {
 			st = &solverStat{}
-			solverStats[r.name] = st
+			solverStats[key] = st
 		}
 		st.Time += float64(r.ms) / 1000
 		statMu.Unlock()
-		definite := r.ans == "sat" || r.ans == "unsat"
-		if definite {
-			if final.Answer == "sat" || final.Answer == "unsat" {
-				if final.Answer != r.ans {
-					final.Answer = "disagree"
-					final.Output += "\n--- " + r.name + ":\n" + r.out
+	}
+	win := func(r res) {
+		key := r.j.solver
+		if r.j.abs {
+			key = "nl-abstract"
+		}
+		statMu.Lock()
+		solverStats[key].Wins++
+		statMu.Unlock()
+		final.Answer, final.Solver, final.Ms, final.Output = r.ans, key, r.ms, r.out
+	}
+	runStage := func(jobs []job, limit time.Duration, waitAll bool) bool {
+		ctx, cancel := context.WithCancel(context.Background())
+		defer cancel()
+		ch := make(chan res, len(jobs))
+		for _, j := range jobs {
+			go func(j job) {
+				a, o, ms := runOne(ctx, j.solver, j.file, limit)
+				ch <- res{j, a, o, ms}
+			}(j)
+		}
+		decided := false
+		for i := 0; i < len(jobs); i++ {
+			r := <-ch
+			record(r)
+			if r.j.abs {
+				if r.ans == "unsat" && !decided {
+					win(r)
+					decided = true
+					if !waitAll {
+						return true
+					}
 				}
 				continue
 			}
-			final.Answer, final.Solver, final.Ms, final.Output = r.ans, r.name, r.ms, r.out
-			statMu.Lock()
-			solverStats[r.name].Wins++
-			statMu.Unlock()
-			if !all {
-				cancel()
-				break
-			}
-		} else if final.Answer != "sat" && final.Answer != "unsat" && final.Answer != "disagree" {
-			// keep the most informative non-answer
-			if final.Answer == "timeout" || r.ans == "unknown" {
-				final.Answer, final.Solver, final.Ms, final.Output = r.ans, r.name, r.ms, r.out
+			final.All[r.j.solver] = r.ans
+			if r.ans == "sat" || r.ans == "unsat" {
+				if decided && (final.Answer == "sat" || final.Answer == "unsat") && final.Answer != r.ans && final.Solver != "nl-abstract" {
+					final.Answer = "disagree"
+					final.Output += "\n--- " + r.j.solver + ":\n" + r.out
+					continue
+				}
+				if !decided {
+					win(r)
+					decided = true
+					if !waitAll {
+						return true
+					}
+				}
+			} else if !decided {
+				if final.Answer == "timeout" || r.ans == "unknown" {
+					final.Answer, final.Solver, final.Ms, final.Output = r.ans, r.j.solver, r.ms, r.out
+				}
 			}
 		}
+		return decided
 	}
+	if all {
+		jobs := []job{{"z3new", file, false}, {"z3", file, false}, {"cvc5", file, false}, {"cvc5e", file, false}}
+		if afile != "" {
+			jobs = append(jobs, job{"z3new", afile, true}, job{"cvc5e", afile, true})
+		}
+		runStage(jobs, timeout, true)
+		return final
+	}
+	stageA := []job{{"z3new", file, false}}
+	if afile != "" {
+		stageA = append(stageA, job{"z3new", afile, true})
+	}
+	la := 1500 * time.Millisecond
+	if timeout < la {
+		la = timeout
+	}
+	if runStage(stageA, la, false) {
+		return final
+	}
+	stageB := []job{{"z3new7", file, false}, {"cvc5e", file, false}, {"z3", file, false}, {"z3new", file, false}}
+	if afile != "" {
+		stageB = append(stageB, job{"z3new7", afile, true}, job{"cvc5e", afile, true}, job{"z3new", afile, true})
+	}
+	runStage(stageB, timeout, false)
 	return final
 }
 
 // raceTwo runs z3new and cvc5 (enumerative instantiation) side by side and returns the first
 // definite answer.
 func raceTwo(file string, timeout time.Duration) (string, string, int64) {
+	// cheap first attempt: one solver, short limit
+	if a, o, ms := runOne(context.Background(), "z3new", file, 1500*time.Millisecond); a == "sat" || a == "unsat" {
+		return a, o, ms
+	}
 	ctx, cancel := context.WithCancel(context.Background())
 	defer cancel()
 	type res struct {
 		a, o string
 		ms   int64
 	}
-	ch := make(chan res, 2)
-	for _, s := range []string{"z3new", "cvc5e"} {
+	ch := make(chan res, 3)
+	for _, s := range []string{"z3new", "z3new7", "cvc5e"} {
 		go func(s string) {
 			a, o, ms := runOne(ctx, s, file, timeout)
 			ch <- res{a, o, ms}
 		}(s)
 	}
 	var last res
-	for i := 0; i < 2; i++ {
+	for i := 0; i < 3; i++ {
 		r := <-ch
 		if r.a == "sat" || r.a == "unsat" {
 			return r.a, r.o, r.ms
